@@ -104,7 +104,7 @@ class SchemaOrder(c02.Fidelity):
         out = []
         for x in r:
             if isinstance(x, list):
-                out.append([(c, {c02._s(k): v for k, v in p.items()}, [c02._s(q) for q in req], sh, mem) for c, p, req, sh, mem in x])
+                out.append([(c, {c02._s(k): v for k, v in p.items()}, [c02._s(q) for q in req], sh, mem) + tuple(c02._sn(m) for m in more) for c, p, req, sh, mem, *more in x])
             else:
                 out.append(x)
         return out
@@ -123,6 +123,10 @@ class SchemaOrder(c02.Fidelity):
                 pb = {c02._s(x): v for x, v in b[1].items()}
                 if a[0] != b[0] or pa != pb or sorted(map(str, a[2])) != sorted(map(str, b[2])) or a[3] != b[3] or a[4] != b[4]:
                     return False, "schema #%d differs between declaration order #0 and #%d: %r vs %r" % (i, k, (a[0], pa, a[2]), (b[0], pb, b[2]))
+                # class / module assigned by the emitter (union templates): the same whatever the order
+                ea, eb = (a[5][0] if len(a) > 5 else None), (b[5][0] if len(b) > 5 else None)
+                if not _deep_eq(ea, eb):
+                    return False, "schema #%d is emitted as %r in declaration order #0 and as %r in order #%d" % (i, c02._sn(ea), c02._sn(eb), k)
         return True, ""
 
     def _names(self, inp):
